@@ -58,3 +58,11 @@ def c08_one_instant_default_support(rec, fctx):
     Recognised only for such a series (its own support is empty) when ALL samples are lost."""
     return bool(fctx and fctx.get("op") == "get" and fctx.get("one_instant_default_support") and fctx.get("own_support_empty")
                 and fctx.get("lost_all"))
+
+
+def c01_zero_length_input_touch(rec, fctx):
+    """The constructor sorts starts and ends independently; a ZERO-LENGTH input (z, z) lying inside, or on the end of, another input
+    interval then looks like two neighbours touching at z, and the 1 us touch separation removes [z - 1 us, z) - instants of a real
+    input interval - instead of letting the zero-length input vanish.  Recognised only for the constructor, only when the lost
+    instant lies in the microsecond before (or on) such a zero-length input."""
+    return bool(fctx and fctx.get("op") == "constructor" and fctx.get("zero_length_inside"))
